@@ -707,7 +707,7 @@ theorem repLoop_typed {α} {P : Nat → α → Prop} {u : Nat → Inp → M → 
     simp only [repLoop]
     by_cases hmax : max = some idx
     · simp only [hmax, if_true]
-      split
+      rcases repDone_cases min (some idx) i m acc with hd | hd <;> rw [hd]
       · trivial
       · exact hacc
     · simp only [hmax, if_false]
@@ -718,7 +718,9 @@ theorem repLoop_typed {α} {P : Nat → α → Prop} {u : Nat → Inp → M → 
         simp only []
         split
         · trivial
-        · exact hacc
+        · rcases repDone_cases min max i m' acc with hd | hd <;> rw [hd]
+          · trivial
+          · exact hacc
       | ok i' m' a =>
         rw [hr] at h1
         refine ih _ _ _ _ (by simp [hlen]) ?_
@@ -979,7 +981,7 @@ theorem parse_typed (g : NodeGrammar) (uni : Uni) :
             have hne : d.emit ≠ Emission.span := by rw [hem]; intro h; cases h
             exact ⟨d, hg, ⟨_, _, by rw [hem]⟩, Or.inr ⟨hne, Val.TypedL_singleton.mpr h1⟩⟩
     | array k x =>
-      simp only [parse]
+      simp only [parse, arrayTryInto_arrayLoop]
       have h1 := arrayLoop_typed (ih inh x) k i m []
       cases hr : arrayLoop (parse g uni n inh x) k i m [] with
       | oof => trivial
